@@ -113,7 +113,7 @@ class Raise(object):
 INT_GROUP = re.compile(r'^(\[\+-\]|-\??|\[-\+\])?(\\d|\[0-9\])'
                        r'(\{\d+(,\d*)?\}|\+)?$')
 FLOAT_GROUP_EXTRA = [
-    r'\.\d+', r'\d+(.\d+)?', r'\d+(\.\d+)?',
+    r'\.\d+', r'\d+(\.\d+)?',
     r'-?[0-9]+\.?[0-9]*(e-?[0-9]+)?',
 ]
 
@@ -278,6 +278,45 @@ def group_is_int(body):
 
 def group_is_float(body):
     return group_is_int(body) or body in FLOAT_GROUP_EXTRA
+
+
+def group_is_bounded(body, limit=4300):
+    """Every repetition of the group has a finite maximum whose product
+    stays under CPython's limit for int(<text>) (4300 digits since 3.11):
+    int() of a longer digit string raises ValueError."""
+    try:
+        import re._parser as P
+        items = P.parse(body)
+    except Exception:
+        return False
+
+    def width(its):
+        total = 0
+        for op, av in its:
+            name = str(op)
+            if name in ('MAX_REPEAT', 'MIN_REPEAT', 'POSSESSIVE_REPEAT'):
+                lo, hi, sub = av
+                if str(hi) == 'MAXREPEAT' or hi > limit:
+                    return None
+                w = width(list(sub))
+                if w is None:
+                    return None
+                total += hi * w
+            elif name == 'SUBPATTERN':
+                w = width(list(av[-1]))
+                if w is None:
+                    return None
+                total += w
+            elif name == 'BRANCH':
+                ws = [width(list(alt)) for alt in av[1]]
+                if any(w is None for w in ws):
+                    return None
+                total += max(ws or [0])
+            else:
+                total += 1
+        return total
+    w = width(list(items))
+    return w is not None and w <= limit
 
 
 class ExcFlow(object):
@@ -528,6 +567,10 @@ class ExcFlow(object):
                     cands = [named_groups(ptn) for ptn in pats]
                     cands = [c for c in cands if g in c]
                     if not cands or not all(test(c[g]) for c in cands):
+                        ok = False
+                    elif nm == 'int' and not all(
+                            group_is_bounded(c[g]) for c in cands):
+                        # \d+ admits more digits than int() converts
                         ok = False
                 if ok:
                     self.stats['dropped_by_regex'] += 1
@@ -892,6 +935,25 @@ class ExcFlow(object):
                     n.iter, (ast.Tuple, ast.List)) and all(
                     isinstance(e, ast.Constant) for e in n.iter.elts):
                 lv[n.target.id] = [e.value for e in n.iter.elts]
+        # arithmetic on a timedelta built from request numbers: the result
+        # may leave the representable range (-P999999999DT1S negated)
+        ar = [x for x in ast.walk(node) if isinstance(x, (ast.AugAssign,
+                                                          ast.BinOp))
+              and isinstance(x.op, (ast.Mult, ast.Add, ast.Sub))]
+        if ar:
+            tds = {t.id for a in walk_no_defs(f.node)
+                   if isinstance(a, ast.Assign) and isinstance(
+                       a.value, ast.Call) and call_name(a.value) ==
+                   'timedelta' and (a.value.args or a.value.keywords)
+                   for t in a.targets if isinstance(t, ast.Name)}
+            for x in ar:
+                ops_ = [x.target, x.value] if isinstance(
+                    x, ast.AugAssign) else [x.left, x.right]
+                if any(isinstance(o, ast.Name) and o.id in tds
+                       for o in ops_):
+                    self.stats['primitive_sites'] += 1
+                    self._emit(Raise('OverflowError', f, x,
+                                     unparse(x)[:60]), stack, out)
         for call in self._calls(node):
             prim = self.primitive(f, call, lv)
             if prim is not None:
